@@ -10,6 +10,9 @@ import glob
 import itertools
 import json
 import os
+import shutil
+import time
+import atexit
 
 import vf
 
@@ -66,22 +69,31 @@ def spec_items(w, c, evs):
     return sorted([i, t] for i, t in d.items())
 
 
+def item_set(f):
+    return sorted(i for i, _ in f["items"])
+
+
 def is_cand(w, s, evs, f, c):
-    return c % s == 0 and c <= f["t"] and spec_items(w, c, evs) == f["items"]
+    """the firing's item set is exactly the item set of [c-w, c), c aligned and not after the trigger
+    (the property text speaks of the set of items; the stored latest timestamps are compared against the model only)"""
+    return c % s == 0 and c <= f["t"] and [i for i, _ in spec_items(w, c, evs)] == item_set(f)
 
 
-def cand_range(w, s, f):
-    """closes that could possibly produce a non-empty content `items` (superset of the candidates)"""
-    tss = [t for _, t in f["items"]]
-    lo, hi = max(tss) + 1, min(min(tss) + w, f["t"])
-    first = ((lo + s - 1) // s) * s
-    return range(first, hi + 1, s)
+def cand_range(w, s, evs, f):
+    """closes that could possibly produce the non-empty item set of f (superset of the candidates), ascending"""
+    i0 = f["items"][0][0]
+    cs = set()
+    for x, t in evs:
+        if x == i0:
+            first = (t // s + 1) * s
+            cs.update(range(first, min(t + w, f["t"]) + 1, s))
+    return sorted(cs)
 
 
 def min_cand_ge(w, s, evs, f, lo):
     """least close c >= lo such that the firing is an exact report of [c-w, c); None if there is none"""
     if f["items"]:
-        for c in cand_range(w, s, f):
+        for c in cand_range(w, s, evs, f):
             if c >= lo and is_cand(w, s, evs, f, c):
                 return c
         return None
@@ -125,8 +137,8 @@ def oracle(w, s, evs, firings):
             bad.append(("content", "firing at event %d reports an item more than once: %r" % (f["k"], f["items"])))
             continue
         if min_cand_ge(w, s, evs, f, 0) is None:
-            bad.append(("content", "firing at event %d (t=%d) with content %r is not the item set of any interval "
-                        "[c-%d, c) with %d | c and c <= %d (missing or foreign item)" % (f["k"], f["t"], f["items"], w, s, f["t"])))
+            bad.append(("content", "firing at event %d (t=%d) with items %r is not the item set of any interval "
+                        "[c-%d, c) with %d | c and c <= %d (missing or foreign item)" % (f["k"], f["t"], item_set(f), w, s, f["t"])))
     if bad:
         return bad, skipped
     # clause 2: strictly increasing trigger times, non-decreasing intervals
@@ -158,7 +170,7 @@ def oracle(w, s, evs, firings):
     singles = {}
     for f in firings:
         if f["items"]:
-            cs = [c for c in cand_range(w, s, f) if is_cand(w, s, evs, f, c)]
+            cs = [c for c in cand_range(w, s, evs, f) if is_cand(w, s, evs, f, c)]
             if len(cs) == 1:
                 if cs[0] in singles:
                     bad.append(("once", "interval with close %d is reported twice (events %d and %d)" % (cs[0], singles[cs[0]], f["k"])))
@@ -180,7 +192,8 @@ def check_model_windows(w, s, evs, mfs):
 
 
 # ---- generators -----------------------------------------------------------------------------------
-def exhaustive_cases(nmax):
+def exhaustive_cases(nmax, snap_upto=99):
+    """every stream of <= nmax events with gaps 0..3 x w, s in 1..4; window-state snapshots for streams of <= snap_upto events"""
     cases = []
     for n in range(0, nmax + 1):
         for gaps in itertools.product(range(4), repeat=n):
@@ -191,7 +204,7 @@ def exhaustive_cases(nmax):
             evs = [[ITEM_PATTERN[k], ts[k]] for k in range(n)]
             for w in range(1, 5):
                 for s in range(1, 5):
-                    cases.append({"w": w, "s": s, "evs": evs, "snap": True})
+                    cases.append({"w": w, "s": s, "evs": evs, "snap": n <= snap_upto})
     return cases
 
 
@@ -249,12 +262,15 @@ def in_order(evs):
 
 # ---- evaluation -----------------------------------------------------------------------------------
 def evaluate(ctx, binpath, cases, stream, chunk=None):
+    t0 = time.time()
     impl = ctx.run_impl(binpath, cases)
+    t1 = time.time()
     model = ctx.run_model("Rsp09", ["KV.Rsp09.Model", "KV.Rsp09.Spec", "KV.Rsp09.Run"], [case_expr(c) for c in cases],
                           preamble="Open Scope N_scope.", chunk=chunk)
     st = dict(cases=len(cases), impl_model_mismatches=0, spec_violations=0, firings=0, empty_firings=0,
               closings_judged=0, gap_class_skipped=0, no_firing_cases=0)
     gap_seen = []
+    t2 = time.time()
     for c, im, mo in zip(cases, impl, model):
         ctx.count()
         if isinstance(mo, tuple) and mo and mo[0] == "ERROR":
@@ -340,7 +356,8 @@ def evaluate(ctx, binpath, cases, stream, chunk=None):
         if any(f["items"] for f in ifs):
             ctx.nontrivial((w, s, tuple(map(tuple, evs))))
     ctx.stream(stream, **st)
-    ctx.log("stream %s: %d cases, %d mismatches, %d violations" % (stream, len(cases), st["impl_model_mismatches"], st["spec_violations"]))
+    ctx.log("stream %s: %d cases, %d mismatches, %d violations (impl %.1fs, model %.1fs, compare %.1fs)"
+            % (stream, len(cases), st["impl_model_mismatches"], st["spec_violations"], t1 - t0, t2 - t1, time.time() - t2))
     return gap_seen
 
 
@@ -394,7 +411,15 @@ def finish(ctx, level="proof"):
         ])
 
 
+def private_workdir(ctx):
+    """two concurrent runs of this check must not share the model/driver scratch files"""
+    ctx.work = os.path.join(ctx.work, "run-%d" % os.getpid())
+    os.makedirs(ctx.work, exist_ok=True)
+    atexit.register(shutil.rmtree, ctx.work, True)
+
+
 def run(ctx):
+    private_workdir(ctx)
     ctx.coq("Rsp09", "C09.v")
     binpath = ctx.harness("c09")
     known_witness(ctx, binpath)
@@ -406,13 +431,13 @@ def run(ctx):
     evaluate(ctx, binpath, scope_cases(ctx.rng, ctx.thorough), "scope")
     # exhaustive small scope
     nmax = 6 if ctx.thorough else 5
-    ex = exhaustive_cases(nmax)
+    ex = exhaustive_cases(nmax, snap_upto=6 if ctx.thorough else 4)
     ctx.sample(ex[len(ex) // 3])
     evaluate(ctx, binpath, ex, "exhaustive_le%d" % nmax)
     ctx.coverage["exhaustive"] = True
     ctx.coverage["exhaustive_scope"] = ("all %d cases: streams of <= %d events with successive timestamp gaps in 0..3 "
-                                        "(first from 0) x width, slide in 1..4, full firing sequence and window state "
-                                        "after every step" % (len(ex), nmax))
+                                        "(first from 0) x width, slide in 1..4, full firing sequence; window state "
+                                        "after every step for streams of <= %d events" % (len(ex), nmax, 6 if ctx.thorough else 4))
     # random medium streams with state snapshots, then long streams (firings only), then large timestamps
     nm, nl = (1500, 1500) if ctx.thorough else (200, 160)
     med = [dict(random_stream(ctx.rng, 40, 12), snap=True) for _ in range(nm)]
@@ -429,6 +454,7 @@ def run(ctx):
 
 
 def replay(ctx):
+    private_workdir(ctx)
     binpath = ctx.harness("c09")
     c = ctx.replay.get("case")
     if not c or "w" not in c:
